@@ -1,6 +1,5 @@
 import Zc.Model.Dns
 import Zc.Proofs.DnsCase
-import Zc.GenFacts.IdentPins
 /-! # C20 — record identity
 
 Equal records hash equal; case, TTL, creation time and the cache-flush bit are ignored;
